@@ -1,4 +1,5 @@
 """C21 — every transaction that leaves the pool without inclusion is reported (DESIGN §7 C21)."""
+from rules import op_local
 from core import AnchorMissing, Origins, atom_match
 from rules import ITER_FLOW
 
@@ -45,6 +46,35 @@ def check(ctx):
                     skip_edges.append((sw.bb, lab))
             starts = [c.target]
             p = b.path(starts, b.return_blocks(), cut_blocks=[x.bb for x in sq], cut_edges=set(skip_edges)) if sq else [0]
+            # a removal inside a loop whose report comes after the loop must *accumulate* the removed entries:
+            # the reported list may not be (re)assigned on a cycle through the removal that passes no report
+            cyc_reach = b.reach([c.target], cut_blocks=[x.bb for x in sq], cut_edges=set(skip_edges)) if sq and c.target is not None else set()
+            overwritten = []
+            if c.bb in cyc_reach:
+                on_cycle = {x for x in cyc_reach if b.path([x], [c.bb], cut_blocks=[y.bb for y in sq], cut_edges=set(skip_edges)) is not None}
+                bases = set()
+                for q in sq:
+                    work = [op_local(a) for a in q.args[1:] if op_local(a) is not None]
+                    while work:
+                        l = work.pop()
+                        if l in bases:
+                            continue
+                        bases.add(l)
+                        for d in b.defs.get(l, []):
+                            if d[0] == "assign" and not d[3].get("p") and d[4]["k"] == "use" and op_local(d[4]["op"]) is not None and not d[4]["op"].get("p"):
+                                work.append(op_local(d[4]["op"]))
+                for l in bases:
+                    for d in b.defs.get(l, []):
+                        dbb = d[1] if d[0] == "assign" else d[1].bb
+                        whole = (d[0] == "call") or not d[3].get("p")
+                        plain_move = d[0] == "assign" and d[4]["k"] == "use" and op_local(d[4]["op"]) in bases
+                        if whole and dbb in on_cycle and not plain_move and l != 0:
+                            nm = (b.local_name(l) if hasattr(b, "local_name") else None) or f"_{l}"
+                            overwritten.append(f"{nm} assigned in bb{dbb}")
+            ctx.add(f"1.reported-list-accumulates-{tag}", "PAIR", not overwritten,
+                    "removals of earlier loop iterations are not overwritten before the report" +
+                    (f": the reported list is reassigned inside the removal loop ({', '.join(sorted(set(overwritten)))}) and reported only after it, so only the last iteration's removals are reported" if overwritten else ""),
+                    sites=[c.where()], site_key=f"{b.unit}:{n}:acc")
             ctx.add(f"1.report-on-every-path-{tag}", "PAIR", p is None,
                     "after a subtree removal every path to the end of the function reports (or finds the list empty)",
                     sites=[c.where()], site_key=f"{b.unit}:{n}", witness=None if p is None else {"path": b.describe_path(p)})
